@@ -57,7 +57,7 @@ ASSIGN = {
     "special": (S.val_special(0), S.val_special(3), {"add", "mulexact", "unary"}, ("C", "F")),
     "zerox": (S.val_zero(), S.val_special(1), {"add", "mulexact"}, ("C", "C")),
     # narrow unsigned integers: the sums over the other operand's missing dimensions exceed the entries' type
-    "u8x": (S.val_base(2, 60), S.val_base(5, 7), {"add"}, ("Cu8", "C")),
+    "u8x": (S.val_base(2, 60), S.val_base(5, 7), {"add", "scalarsub"}, ("Cu8", "C")),
     "u8y": (S.val_base(5, 7), S.val_base(2, 60), {"add"}, ("F", "Cu8")),
 }
 QUICK_ASSIGN = ("pow2", "signed", "primes", "halfpow", "base", "intx", "inty", "tiny", "special", "zerox", "u8x", "u8y")
@@ -103,6 +103,9 @@ def _ops():
     ops["x**y frac"] = ("powtol", lambda X, Y: X ** Y, lambda x, y: R.power(x, y), TOL)
     for sn, s in SCALARS.items():
         fs = float(s)
+        # number - x and x - number once more for narrow unsigned integer arrays (exact in any type)
+        ops[f"{sn}-x (u8)"] = ("scalarsub", lambda X, Y, s=s: s - X, lambda x, y, fs=fs: R.elementwise(x, lambda v: fs - v), 0.0)
+        ops[f"x+{sn} (u8)"] = ("scalarsub", lambda X, Y, s=s: X + s, lambda x, y, fs=fs: R.elementwise(x, lambda v: v + fs), 0.0)
         for group in ("scalar", "scalarsigned", "scalartiny"):
             g = {"scalar": "", "scalarsigned": " (signed)", "scalartiny": " (tiny)"}[group]
             if group == "scalartiny" and sn != "float.5":
@@ -139,7 +142,7 @@ def _ops():
 
 
 OPS = _ops()
-Y_INDEPENDENT = {"scalar", "scalarsigned", "scalartiny", "unary"}
+Y_INDEPENDENT = {"scalar", "scalarsigned", "scalartiny", "scalarsub", "unary"}
 
 
 def bounds(tier):
